@@ -531,7 +531,7 @@ func (x *Exec) storeStruct(ref string, v Val, st *types.Struct) {
 	for i := 0; i < st.NumFields(); i++ {
 		f := st.Field(i)
 		h := x.heapOf(x.st, f)
-		x.st.heap[f] = fmt.Sprintf("(store %s %s (%s.%s %s))", h, ref, srt, sanitize(f.Name()), v.S)
+		x.setHeap(f, fmt.Sprintf("(store %s %s (%s.%s %s))", h, ref, srt, sanitize(f.Name()), v.S))
 	}
 }
 
@@ -1010,7 +1010,7 @@ func (x *Exec) storeCell(ref string, v Val, t types.Type) {
 		return
 	}
 	f := x.cellField(t)
-	x.st.heap[f] = fmt.Sprintf("(store %s %s %s)", x.heapOf(x.st, f), ref, v.S)
+	x.setHeap(f, fmt.Sprintf("(store %s %s %s)", x.heapOf(x.st, f), ref, v.S))
 }
 
 // recv models a channel receive under assumption A-seq (one sender, one receiver, unbuffered channel):
